@@ -195,9 +195,10 @@ T = {
     "C12-compact-skip-off-by-one": (
         "C12", "compact_folder skips the rewrite when compacted_len + 1 >= current_len (crates/backend/src/compact.rs)",
         "a log with exactly one redundant record",
-        [],
-        "MISSED: crates/backend/src/compact.rs (temp event log, replace_all_events on either backend) is outside the C12 kernel, "
-        "which runs FolderReducer::compact and replays its events; recorded as a gap"),
+        ["C12 storage level: the compacted log holds 2 records for 0 live secrets"],
+        "MISSED at first: crates/backend/src/compact.rs was outside the kernel.  The storage-level part was built for it: the "
+        "real compact_folder (file-system branch) over the vfs model on a log written by the real apply and read back by "
+        "the real event_stream; caught"),
     "C20-prepare-guard-by-key": (
         "C20", "SearchIndex::prepare guards duplicates with documents.contains_key(key) (the key includes the label) (crates/search/src/search.rs)",
         "the same (folder, id) added again under a different label",
